@@ -31,6 +31,7 @@ import (
 	"pgregory.net/rapid"
 
 	"verif/harness/internal/ev"
+	"verif/harness/internal/loglevel"
 )
 
 const wiringPolicies = `global:
@@ -346,6 +347,9 @@ func TestWiring(t *testing.T) {
 		case <-time.After(guard):
 			rt.Fatalf("VERIF-INFRA: watcher goroutine did not consume the script within %s", guard)
 		}
+		level := loglevel.Gen().Draw(rt, "log level")
+		r.Class("log level " + level)
+		defer loglevel.Set(level)()
 		r.Case()
 
 		// derive the reaction trace from the policies in force at each observation
